@@ -310,6 +310,30 @@ func main() {
 		cases = append(cases, ks)
 	}
 
+	// ------------------------------------------------ variables named like a safe reserved word, in any
+	// letter case, declared, read and used as the source of member paths: a name is exactly its spelling
+	for _, wd := range []string{"distinct", "filter", "sort", "limit", "collect", "into", "keep", "with", "count", "all", "any", "aggregate", "event", "timeout", "options", "current", "asc", "desc"} {
+		for _, sp := range []string{wd, strings.ToUpper(wd), strings.ToUpper(wd[:1]) + wd[1:]} {
+			other := strings.ToUpper(sp)
+			if other == sp {
+				other = strings.ToLower(sp)
+			}
+			canon := fmt.Sprintf("LET %s = {a: 1, b: [10, 20]} LET %s = {a: 2, b: [30, 40]} RETURN [%s.a, %s.b[1], %s[\"a\"], %s.a, %s.b[0], %s]", sp, other, sp, sp, sp, other, other, sp)
+			co := run(canon, nil)
+			m.Evaluations++
+			mk := func(n string) *fqlast.E { return fqlast.Var(n) }
+			obj := func(a, b0, b1 int64) *fqlast.E {
+				return fqlast.Obj(fqlast.Prop{Kind: "named", Name: "a", Val: fqlast.Int(a)}, fqlast.Prop{Kind: "named", Name: "b", Val: fqlast.Arr(fqlast.Int(b0), fqlast.Int(b1))})
+			}
+			p := &fqlast.Program{Stmts: []fqlast.Stmt{{Let: true, Name: sp, E: obj(1, 10, 20)}, {Let: true, Name: other, E: obj(2, 30, 40)}},
+				Ret: fqlast.Arr(fqlast.Member(mk(sp), fqlast.Seg{Name: "a"}), fqlast.Member(mk(sp), fqlast.Seg{Name: "b"}, fqlast.Seg{Expr: fqlast.Int(1)}), fqlast.Member(mk(sp), fqlast.Seg{Expr: fqlast.Str("a")}),
+					fqlast.Member(mk(other), fqlast.Seg{Name: "a"}), fqlast.Member(mk(other), fqlast.Seg{Name: "b"}, fqlast.Seg{Expr: fqlast.Int(0)}), mk(sp))}
+			ks := kase{Canon: canon, AST: p.Coq(), Fam: "reserved-word-variables", Out: clip(outcomeKey(co), 200)}
+			checkExpect(&ks, co, []interface{}{1.0, 20.0, 1.0, 2.0, 30.0, map[string]interface{}{"a": 1.0, "b": []interface{}{10.0, 20.0}}})
+			cases = append(cases, ks)
+		}
+	}
+
 	// ------------------------------------------------ echo: property names written as string literals
 	// (object keys and .name path segments) in each of the four quote styles
 	for _, nm := range []string{"a b", "é", "日本", "x-y", "", "k", "RETURN", "ß ü", "a.b", "😀", "1", "with space and ´"} {
